@@ -9,4 +9,4 @@ for p in ${*:-C19 C14 C08 C12 C09 C07}; do
   /venv/bin/python -c "
 import json; d=json.load(open('$OUT/evidence/$p.json')); c=d['coverage']; print('   margins', c['closest_margins']['values']); print('   opfail', c['operations_failed'], 'not started', c['runs_not_started_batch_wall'])"
 done
-rm -rf "$OUT"
+mkdir -p /tmp/thor_keep; cp "$OUT"/replays/*.json /tmp/thor_keep/ 2>/dev/null; rm -rf "$OUT"
